@@ -956,3 +956,49 @@ def bulk_path_is_key(ctx):
         ctx.require(arg == path.rsplit('/', 1)[-1], q, 'key 2..n of a batch: stored under path %s but derived with subkey_for_path(%r)' % (path, arg), loop,
                     "new_keys / get_keys / scan with number_of_keys > 1 on a wallet with key path m/account'/change'/address_index' store m/0'/0'/5' for the NON-hardened child m/0'/0'/5: addresses Bitcoin Core does not derive")
     ctx.floor(n, 2, 'bulk iterations')
+
+
+@PROP.obligation('C09.bulk-sibling-arguments', canaries=[
+    mut.Canary('bulk-created keys are stored without the cosigner they belong to', 'wallets', lambda tree: _drop_from_key_kw(tree, 1, 'cosigner_id')),
+    mut.Canary('bulk-created keys are stored for the default witness type', 'wallets', lambda tree: _drop_from_key_kw(tree, 1, 'witness_type')),
+])
+def bulk_sibling_arguments(ctx):
+    """keys_for_path stores a key through WalletKey.from_key at two places: the loop that walks the path (first key of a batch, every single
+    key) and the bulk loop (keys 2..n). Both describe the same kind of row, so they agree: the bulk call passes every keyword the
+    single-key call passes (account_id, change, cosigner_id, encoding, network, parent_id, path, purpose, witness_type ...), and the
+    scope keywords carry the same variable at both sites. A keyword missing in the bulk call gives keys 2..n of new_keys / get_keys /
+    scan another network, witness type, account or cosigner than key 1."""
+    q = 'wallets:Wallet.keys_for_path'
+    fn = ctx.repo.func(q)
+    calls = [c for c in ast.walk(fn) if isinstance(c, ast.Call) and norm(c.func) == 'WalletKey.from_key']
+    if len(calls) != 2:
+        ctx.undecided('keys_for_path: %d WalletKey.from_key calls, expected 2' % len(calls))
+    calls.sort(key=lambda c: c.lineno)
+    single, bulk = [{k.arg: k.value for k in c.keywords if k.arg} for c in calls]
+    missing = sorted(set(single) - set(bulk))
+    ctx.saw('single-key call passes %s; bulk call passes %s' % (sorted(single), sorted(bulk)))
+    ctx.require(not missing, q, 'the bulk call of WalletKey.from_key does not pass %s, which the single-key call passes' % ', '.join(m_ + '=' for m_ in missing), calls[1],
+                'keys 2..n of a batch are stored with the default of that argument: another cosigner / witness type / network than the first key of the same request')
+    n = 0
+    for kw in ('account_id', 'change', 'cosigner_id', 'encoding', 'network', 'purpose', 'witness_type', 'wallet_id', 'session'):
+        if kw in single and kw in bulk:
+            n += 1
+            ctx.require(norm(single[kw]) == norm(bulk[kw]), q, 'the two WalletKey.from_key calls disagree on %s= (`%s` / `%s`)' % (kw, norm(single[kw]), norm(bulk[kw])), calls[1],
+                        'keys 2..n of a batch belong to another %s than key 1' % kw)
+    ctx.floor(n, 8, 'scope keywords compared')
+
+
+def _drop_from_key_kw(tree, which, kw):
+    for cls in tree.body:
+        if isinstance(cls, ast.ClassDef) and cls.name == 'Wallet':
+            for f in cls.body:
+                if isinstance(f, ast.FunctionDef) and f.name == 'keys_for_path':
+                    calls = sorted([c for c in ast.walk(f) if isinstance(c, ast.Call) and norm(c.func) == 'WalletKey.from_key'], key=lambda c: c.lineno)
+                    if len(calls) != 2:
+                        return False
+                    c = calls[which]
+                    if not any(k.arg == kw for k in c.keywords):
+                        return False
+                    c.keywords = [k for k in c.keywords if k.arg != kw]
+                    return True
+    return False
